@@ -1118,94 +1118,58 @@ func (e *engine) compare(w *world) error {
 	return nil
 }
 
-// classify explains a change of frozen handle h's content by the sharing that lets handle g reach it.
-func classify(h *handle, mutated []any) string {
-	isMut := func(n any) bool {
-		for _, x := range mutated {
-			if x == n {
-				return true
-			}
+// classify explains a change of frozen handle h's content: a written node must be visible from h
+// and lie inside a region that is shared between wrapper groups, i.e. at or below a node that was
+// stored by reference (message assignment) or shared by a shallow copy.
+func (w *world) classify(h *handle, mutated []any) string {
+	in := func(v *visitor, n any) bool {
+		switch n := n.(type) {
+		case *mMsg:
+			return v.msgs[n]
+		case *mList:
+			return v.lists[n]
+		case *mMap:
+			return v.maps[n]
 		}
 		return false
 	}
-	type key struct {
-		n    any
-		c, a bool
-	}
-	seen := map[key]bool{}
-	foundCopy, foundAlias, found := false, false, false
-	hit := func(c, a bool) {
-		found = true
-		foundCopy = foundCopy || c
-		foundAlias = foundAlias || a
-	}
-	var wm func(m *mMsg, c, a bool)
-	var wl func(l *mList, c, a bool)
-	var wp func(m *mMap, c, a bool)
-	we := func(e mElem, c, a bool) {
-		if e.msg != nil {
-			wm(e.msg, c, a)
+	hv := newVisitor()
+	hv.handle(h)
+	var visible []any
+	for _, n := range mutated {
+		if in(hv, n) {
+			visible = append(visible, n)
 		}
 	}
-	wl = func(l *mList, c, a bool) {
-		if l == nil {
-			return
-		}
-		c = c || l.sharedCopy
-		if seen[key{l, c, a}] {
-			return
-		}
-		seen[key{l, c, a}] = true
-		if isMut(l) {
-			hit(c, a)
-		}
-		for _, e := range l.elems {
-			we(e, c, a)
-		}
-	}
-	wp = func(m *mMap, c, a bool) {
-		if m == nil {
-			return
-		}
-		c = c || m.sharedCopy
-		if seen[key{m, c, a}] {
-			return
-		}
-		seen[key{m, c, a}] = true
-		if isMut(m) {
-			hit(c, a)
-		}
-		for _, e := range m.vals {
-			we(e, c, a)
-		}
-	}
-	wm = func(m *mMsg, c, a bool) {
-		if m == nil {
-			return
-		}
-		c, a = c || m.sharedCopy, a || m.sharedAlias
-		if seen[key{m, c, a}] {
-			return
-		}
-		seen[key{m, c, a}] = true
-		if isMut(m) {
-			hit(c, a)
-		}
-		for _, s := range m.known {
-			wm(s.msg, c, a)
-			wl(s.list, c, a)
-			wp(s.mp, c, a)
-		}
-	}
-	wm(h.msg, false, false)
-	wl(h.list, false, false)
-	wp(h.mp, false, false)
-	switch {
-	case !found:
+	if len(visible) == 0 {
 		return ""
-	case foundCopy:
+	}
+	byCopy, byAlias := false, false
+	for _, x := range w.marked {
+		xv := newVisitor()
+		var c, a bool
+		switch x := x.(type) {
+		case *mMsg:
+			xv.msg(x)
+			c, a = x.sharedCopy, x.sharedAlias
+		case *mList:
+			xv.list(x)
+			c = x.sharedCopy
+		case *mMap:
+			xv.mapn(x)
+			c = x.sharedCopy
+		}
+		for _, n := range visible {
+			if in(xv, n) {
+				byCopy = byCopy || c
+				byAlias = byAlias || a
+			}
+		}
+	}
+	switch {
+	case byCopy:
 		return "C20-frozen-shallow-copy"
-	case foundAlias:
+	case byAlias:
 		return "C20-frozen-message-alias"
 	}
 	return ""
@@ -1229,7 +1193,7 @@ func (e *engine) checkFrozen(where string, mut *handle, mutated []any) error {
 		}
 		id := ""
 		if mut != nil && mut.flag != h.flag && !mut.flag.frozen && cur != h.frozenCanon {
-			id = classify(h, mutated)
+			id = e.w.classify(h, mutated)
 		}
 		if id == "" {
 			return bad("%s: frozen handle %d (%s) changed: printed %s, now %s", where, i, h.origin, h.frozenStr, s)
